@@ -116,6 +116,11 @@ func longTask(name, log, sleepTag string, sc cancelScenario) *task.Task {
 		body = fmt.Sprintf("echo start-%s >> %s; sh -c 'trap \"\" INT; exec sleep %s'; echo end-%s >> %s", name, log, sleepTag, name, log)
 	}
 	switch sc.Point {
+	case "in-context-up", "in-context-before":
+		// the cancellation arrives while a command of the task's execution context is running (bringing the context up,
+		// or its before hook): it is one of the commands that are running
+		t.Context = "slow-" + sc.Point
+		t.Commands = []string{fmt.Sprintf("echo cmd-%s >> %s", name, log)}
 	case "in-condition":
 		// the cancellation arrives while the task's condition is being evaluated, by a program that answers an interrupt
 		// with an exit status of its own: the task was interrupted before it ran anything - not "skipped, fine"
@@ -160,6 +165,10 @@ func cancelChild(args []string) {
 		"latectx": runner.NewExecutionContext(nil, "", variables.NewVariables(),
 			[]string{fmt.Sprintf("echo late-hook-up >> %s", sc.Log)}, nil, []string{fmt.Sprintf("echo late-hook-before >> %s", sc.Log)}, nil),
 		"broken": runner.NewExecutionContext(nil, "", variables.NewVariables(), []string{"false"}, nil, nil, nil),
+		"slow-in-context-up": runner.NewExecutionContext(nil, "", variables.NewVariables(),
+			[]string{fmt.Sprintf("echo start-t0 >> %s; sleep %s", sc.Log, sleepTag)}, []string{fmt.Sprintf("echo ctx-down >> %s", sc.Log)}, nil, []string{fmt.Sprintf("echo ctx-after >> %s", sc.Log)}),
+		"slow-in-context-before": runner.NewExecutionContext(nil, "", variables.NewVariables(),
+			[]string{"true"}, []string{fmt.Sprintf("echo ctx-down >> %s", sc.Log)}, []string{fmt.Sprintf("echo start-t0 >> %s; sleep %s", sc.Log, sleepTag)}, []string{fmt.Sprintf("echo ctx-after >> %s", sc.Log)}),
 	})
 	switch sc.Pre {
 	case "bad-context":
@@ -645,6 +654,9 @@ func genCancelScenarios(tier string, rng *rand.Rand) []cancelScenario {
 	// a cancellation that arrives while a task's condition is being evaluated
 	out = append(out, cancelScenario{Mode: "runner", Inflight: 1, Point: "in-condition"}, cancelScenario{Mode: "runner", Inflight: 2, Point: "in-condition", Allow: true},
 		cancelScenario{Mode: "sched", Inflight: 1, Waiting: 1, Point: "in-condition"})
+	// ... or while a command of the task's execution context is running (its up commands, its before hook)
+	out = append(out, cancelScenario{Mode: "runner", Inflight: 1, Point: "in-context-up"}, cancelScenario{Mode: "runner", Inflight: 1, Point: "in-context-before"},
+		cancelScenario{Mode: "sched", Inflight: 1, Waiting: 1, Point: "in-context-up"}, cancelScenario{Mode: "sched", Inflight: 1, Waiting: 1, Point: "in-context-before", Allow: true})
 	// ... or while the scheduling loop is evaluating the condition of a stage
 	out = append(out, cancelScenario{Mode: "sched-in-stage-condition", Point: "in-command"})
 	// a cancellation that completed before the pipeline is run
